@@ -20,10 +20,10 @@ def campaign_c14(seed, tier):
     for s in (0, 1, 2):
         t = T[s]
         classes = [0, 1, 100] if t == 0 else [0, t - 1, t, t + 1, 10 * t]
-        classes += [32767, 32768, 65535, 65536, 65537, 100000, 1999999]     # representation boundaries of the elapsed time
+        classes += [32767, 32768, 65535, 65536, 65537, 100000, 1000000]     # representation boundaries of the elapsed time
         for el in classes:
-            lines = ["NEW", "ADV 2000000"]
-            now_s = 2001
+            lines = ["NEW", "ADV 1500000000"]
+            now_s = 1500001
             for inp in range(-128, 256):
                 lines.append("MSTEP %d %d %d" % (inp, s, now_s - el))
             scs.append(Scenario("c14-step-s%d-e%d" % (s, el), lines))
@@ -63,9 +63,9 @@ def campaign_c15(seed, tier):
     rng = random.Random(seed)
     scs = []
     for s in (0, 1, 2, 3):
-        for el in (0, 1, 2, 10, 32767, 32768, 65535, 65536, 65537, 100000, 4999999):
-            lines = ["NEW", "ADV 5000000"]
-            now_s = 5001
+        for el in (0, 1, 2, 10, 32767, 32768, 65535, 65536, 65537, 100000, 1000000):
+            lines = ["NEW", "ADV 1500000000"]
+            now_s = 1500001
             for ev in list(range(0, 8)) + [8, 9, 11, -1, -2, 255, 100]:
                 lines.append("SSTEP %d %d %d" % (ev, s, now_s - el))
             scs.append(Scenario("c15-step-s%d-e%d" % (s, el), lines))
@@ -162,6 +162,26 @@ def sc_c11(name, seed, counts, tier):
                 lines.append("CLASSIFY %d 0 %s" % (len(f), f.hex()))
                 f = header(tos, OP_HELLO, ed, m, rd, m, 0) + bytes(14)
                 lines.append("CLASSIFY %d 0 %s" % (len(f), f.hex()))
+    # look-alike addresses: differing from the own / the mapper's / the broadcast address in one byte, or in
+    # two bytes by the same bit pattern (differences that cancel under XOR or a byte sum)
+    def flip2(a, i, j, mask):
+        b = bytearray(a)
+        b[i] ^= mask
+        b[j] ^= mask
+        return bytes(b)
+    lines.append("TCLEAR")
+    lines.append("TADD 1 7 4")
+    alikes = [flip2(OWN, i, j, mk) for i in range(6) for j in range(i + 1, 6) for mk in (0x01, 0xFF)] + \
+             [bytes(OWN[:i]) + bytes([OWN[i] ^ 0x10]) + bytes(OWN[i + 1:]) for i in range(6)]
+    for a in alikes:
+        f = discover(0, m, gen=7, seq=9, stations=[key_mac(9), a, key_mac(8)])
+        lines.append("CLASSIFY %d 0 %s" % (len(f), f.hex()))
+    for a in [flip2(m, i, j, 0x10) for i in range(6) for j in range(i + 1, 6)][:10]:
+        f = discover(0, a, gen=7, seq=9, stations=[OWN])        # a look-alike mapper has no session: not "changed"
+        lines.append("CLASSIFY %d 0 %s" % (len(f), f.hex()))
+    for a in [flip2(BCAST, i, j, 0xFF) for i in range(6) for j in range(i + 1, 6)] + [flip2(BCAST, 0, 0, 0)]:
+        f = header(0, OP_RESET, BCAST, m, a, m, 0)
+        lines.append("CLASSIFY %d 0 %s" % (len(f), f.hex()))
     for ln in (0, 14, 31, 32, 33, 34, 35, 36, 37, 41, 42, 47, 48):
         f = discover(0, m, gen=7, seq=9, stations=[OWN, key_mac(9)])
         for fill in (0, 0xFF, 1):      # what the rest of the receive buffer happens to hold
@@ -200,7 +220,7 @@ def campaign_c13(seed, tier):
     scs = []
     chunks = 16 if tier == "quick" else 64
     for c in range(chunks):
-        lines = ["NEW"]
+        lines = ["CLOCK %d" % [1000, 0, 4294967296 - 200, 4294967296 + 5000, 34560000000, 2147483648][c % 6], "NEW"]
         for prev in prevs:
             for begun in (1, 0):
                 for r in rs[c::chunks]:     # ascending r per (prev, begun): monotonicity is checked along the way
@@ -214,7 +234,7 @@ def campaign_c13(seed, tier):
 
 def sc_band_ticks(name, seed):
     rng = random.Random(seed)
-    lines = ["NEW"]
+    lines = ["CLOCK %d" % rng.choice([1000, 0, 4294960000, 4294967296 - 200, 4294967296 + 5000, 34560000000]), "NEW"]
     f = discover(0, key_mac(1), gen=1, seq=1, stations=[key_mac(9)])     # a session that is never acknowledged
     lines.append("GLUE %d 0 %s" % (len(f), f.hex()))
     for _ in range(60):
@@ -236,7 +256,8 @@ def sc_schedule(name, seed, n, long_gaps=False):
     """interleavings of tick, clock advance, session add/refresh/complete/remove/clear, Hello heard,
     frames through the Darwin frame path"""
     rng = random.Random(seed)
-    lines = ["CLOCK %d" % rng.choice([1000, 1000, 0, 700, 999, 123456789]), "NEW"]
+    # the monotonic clock may be near 0 or weeks old (2^32 ms is 49.7 days)
+    lines = ["CLOCK %d" % rng.choice([1000, 1000, 0, 700, 999, 123456789, 4294960000, 4294967296 + 5000, 34560000000]), "NEW"]
     keys = [1, 2, 3]
     adv = [0, 1, 10, 50, 100, 100, 100, 299, 300, 301, 500, 999, 1000, 1001, 1100, 2000, 5000]
     if long_gaps:
